@@ -5,7 +5,7 @@ From BV Require Import Base.Prelude Model.Block Model.ForkDB Model.Forkable Mode
   Proofs.Fk.StoreFacts Proofs.Fk.WalkFacts Proofs.Fk.LoopFacts Proofs.Fk.StoreChange Proofs.Fk.SwitchFacts
   Proofs.Fk.FixedLib Proofs.Fk.MovingLibStore Proofs.Fk.MovingLibWalk Proofs.Fk.MovingLibLoops
   Proofs.Fk.MovingLibInv Proofs.Fk.MovingLibFin Proofs.Fk.MovingLibDisc
-  Proofs.Hub.StepFields Proofs.Hub.ConsFacts Proofs.Hub.HubInv.
+  Proofs.Hub.StepFields Proofs.Hub.ConsFacts Proofs.Hub.StepStore Proofs.Hub.Retention Proofs.Hub.HubInv.
 Local Open Scope N_scope.
 
 (* ---------- fk_run / state_after ---------- *)
@@ -75,28 +75,30 @@ Section Run.
 
   (* the state a run of events E (consumer c0 before) ends in *)
   Definition Resume (c0 : cons) (E : list event) (a : block) (s' : fstate) (Fin' : list block) (S' : cstack) (c' : cons) : Prop :=
-    Post a s' Fin' S' c' /\ cons_fold c0 E = Some c' /\ MidFacts c0 E a Fin' /\ FinRooted a Fin'.
+    Post a s' Fin' S' c' /\ cons_fold c0 E = Some c' /\ MidFacts c0 E a Fin' s' /\ FinRooted a Fin'.
 
   Lemma run_post : forall h a s Fin S c, Post a s Fin S c -> FinRooted a Fin -> (forall b, In b h -> In b U) ->
     exists s' F' S' c',
       run_ok cfg s h s' /\ Resume c (all_events (fk_run cfg s h)) a s' (Fin ++ F') S' c' /\
-      linked (bid (libblk a Fin)) F' /\ Forall (fun x => In x U /\ bnum (libblk a Fin) < bnum x) F'.
+      linked (bid (libblk a Fin)) F' /\ Forall (fun x => In x U /\ bnum (libblk a Fin) < bnum x) F' /\
+      (forall B1, Ret B1 s -> Ret B1 s').
   Proof.
     induction h as [|b h IH]; intros a s Fin S c HP HFR Hh.
     - exists s, [], S, c. rewrite app_nil_r. split; [apply run_ok_nil|]. split.
       + split; [exact HP|]. split; [reflexivity|]. split; [apply mid_nil | exact HFR].
-      + split; [exact I | constructor].
+      + split; [exact I|]. split; [constructor | auto].
     - destruct (post_step U cfg Hnofail Hnew Hundo Hirr Hincl U_id U_uniq U_up D_decl a s Fin S c b HP (Hh b (or_introl eq_refl)))
-        as (s1 & evs & Fnew & S1 & c1 & Hstep & HP1 & Hc1 & HlF & HFU & HM).
+        as (s1 & evs & Fnew & S1 & c1 & Hstep & HP1 & Hc1 & HlF & HFU & HM & Hpres1).
       destruct (IH a s1 (Fin ++ Fnew) S1 c1 HP1 (fin_rooted_app a Fin Fnew HFR HlF) (fun x Hx => Hh x (or_intror Hx)))
-        as (s' & F2 & S' & c' & HR & (HP' & Hc' & HM' & HFR') & Hl2 & HF2).
+        as (s' & F2 & S' & c' & HR & (HP' & Hc' & HM' & HFR') & Hl2 & HF2 & Hpres2).
       destruct (run_ok_cons cfg s b h s1 evs s' Hstep HR) as [HR' HE].
       exists s', (Fnew ++ F2), S', c'. rewrite HE, app_assoc.
       split; [exact HR'|]. split; [|split].
       + split; [exact HP'|]. split; [rewrite cfold_app, Hc1; exact Hc'|]. split; [|exact HFR'].
-        apply (mid_compose U _ _ c1); [exact Hc1 | apply mid_extend; assumption | exact HM'].
+        apply (mid_compose U _ _ c1); [exact Hc1 | apply (mid_extend U cfg U_id U_uniq U_up D_decl _ _ _ _ _ s1); assumption | exact HM'].
       + apply linked_app_iff. split; [exact HlF|]. rewrite <- libblk_tip. exact Hl2.
-      + apply Forall_app. split; [exact HFU|].
+      + split; [|intros B1 H1; apply Hpres2; apply Hpres1; exact H1].
+        apply Forall_app. split; [exact HFU|].
         assert (Hm : bnum (libblk a Fin) <= bnum (libblk a (Fin ++ Fnew))).
         { apply libblk_mono. eapply Forall_impl; [|exact HFU]. cbn beta. tauto. }
         eapply Forall_impl; [|exact HF2]. cbn beta. intros x [H1 H2]. split; [exact H1 | lia].
@@ -117,11 +119,11 @@ Section Run.
         destruct (run_ok_cons cfg s b h s1 [] s' Hstep HR) as [HR' HE].
         exists s'. split; [exact HR'|]. rewrite HE. exact HPh.
       + destruct (run_post h a s1 Fin S1 c1 HP1 HFR1 (fun x Hx => Hh x (or_intror Hx)))
-          as (s' & F2 & S' & c' & HR & (HP' & Hc' & HM' & HFR') & Hl2 & HF2).
+          as (s' & F2 & S' & c' & HR & (HP' & Hc' & HM' & HFR') & Hl2 & HF2 & Hpres2).
         destruct (run_ok_cons cfg s b h s1 evs s' Hstep HR) as [HR' HE].
         exists s'. split; [exact HR'|]. right. exists a, (Fin ++ F2), S', c'. rewrite HE.
         split; [exact HP'|]. split; [rewrite cfold_app, Hc1; exact Hc'|]. split; [|exact HFR'].
-        apply (mid_compose U _ _ c1); [exact Hc1 | apply mid_extend; assumption | exact HM'].
+        apply (mid_compose U _ _ c1); [exact Hc1 | apply (mid_extend U cfg U_id U_uniq U_up D_decl _ _ _ _ _ s1); assumption | exact HM'].
   Qed.
 
   Theorem fk_history h : (forall b, In b h -> In b U) ->
